@@ -206,7 +206,7 @@ pub proof fn lemma_run_ok_prefix<V: View>(s: V::S, h: Seq<T>, k: int)
         assert(h.drop_last().take(k) =~= h.take(k));
     }
 }
-}
+} // mod shim
 //@@MODULES@@
 fn main() {}
 }
